@@ -286,6 +286,12 @@ def run_task(task):
             continue
         files, rec = p.result, p.notes['rec']
         claims = [('exactly the files 0.txt .. k-1.txt', sorted(files) == sorted('%d.txt' % i for i in range(v['numinst'])))]
+        if not rec.randint_calls and not rec.choice_calls and not rec.tie_calls and not rec.shuffles:
+            # the code reached the random sources by a route the stubs do not cover: nothing can be claimed for all seeds
+            res['obligations'] += 1
+            res['unknown'] += 1
+            res['controls']['rng_stubs_bypassed'] = res['controls'].get('rng_stubs_bypassed', 0) + 1
+            continue
         claims.append(('list lengths drawn from exactly [pmin, pmax]',
                        len(rec.randint_calls) == n1 * v['numinst'] and all((lo, hi) == (v['pmin'], v['pmax'] + 1) for lo, hi, _ in rec.randint_calls)))
         claims.append(('sampling without replacement with a weight vector over the whole population',
